@@ -124,6 +124,15 @@ Theorem C15_idempotent_last_prioritised : forall e s0 sts last,
 Proof. exact PrioLaws.repeat_last_prio. Qed.
 Print Assumptions C15_idempotent_last_prioritised.
 
+(* an empty mapping document (untagged or carrying any tags of the class) inserted anywhere after the first document changes no
+   value and no node priority below the root (the root's own priority is the only thing it can raise) *)
+Theorem C15_empty_neutral_prioritised : forall e s0 l1 l2 fE xE,
+  Forall MergePrio.NewZ (s0 :: l1 ++ Comp CDict fE xE [] :: l2) -> forallb is_dictk (s0 :: l1 ++ l2) = true ->
+  exists n m, flatten e (s0 :: l1 ++ Comp CDict fE xE [] :: l2) = Ok n /\ flatten e (s0 :: l1 ++ l2) = Ok m /\
+              PrioLaws.kids (MergePrio.perase n) = PrioLaws.kids (MergePrio.perase m).
+Proof. exact PrioLaws.empty_doc_neutral_flatten. Qed.
+Print Assumptions C15_empty_neutral_prioritised.
+
 (* the prioritised reference update is idempotent in its second argument, and merging a value with itself is the identity *)
 Theorem C15_prioritised_update_idempotent : forall b a, PrioPath.pwf b -> UpdateP.upd_p (UpdateP.upd_p a b) b = UpdateP.upd_p a b.
 Proof. exact PrioLaws.upd_p_idem. Qed.
